@@ -68,7 +68,8 @@ func VPH_C14_nfs() {
 	}
 	g := &vpGen{handles: []uint64{hd, hx, hl}, names: []string{"x", "new"}, wild: vpTier() == 1, maxData: 2}
 	var body []byte
-	switch vpChoose("args", 0, 2) {
+	argSel := vpChoose("args", 0, 2)
+	switch argSel {
 	case 0:
 		body = g.args(proc)
 		vpReach("args-wellformed")
@@ -91,17 +92,16 @@ func VPH_C14_nfs() {
 		vpReach("args-garbage")
 	}
 	// backend fault on the next call of one operation (normal state only)
-	fault := 0
-	if state == "normal" {
-		fault = vpChoose("fault", 0, 3)
-	}
-	switch fault {
-	case 1:
-		env.fs.failOp, env.fs.failErr = "Lstat", vpErr("lstat", "/x", syscall.EIO)
-	case 2:
-		env.fs.failOp, env.fs.failErr = "OpenFile", vpErr("open", "/x", syscall.EACCES)
-	case 3:
-		env.fs.failOp, env.fs.failErr = "Stat", vpErr("stat", "/x", syscall.ENOENT)
+	// Backend fault (normal state, well-formed arguments): the n-th fallible backend operation the
+	// handler makes fails, whichever it is, with an arbitrary errno (symbolic: ELOOP, EBUSY, EMFILE, ...
+	// as well as the ones mapError names).
+	if state == "normal" && argSel == 0 {
+		if nth := vpChoose("fault", 0, 3); nth > 0 {
+			errno := vpU32("errno")
+			vpAssume(vpAnd(errno >= 1, errno <= 133))
+			env.fs.failNth, env.fs.failSeen, env.fs.failErr = nth, 0, vpErr("fault", "/x", syscall.Errno(errno))
+			vpReach("backend-fault")
+		}
 	}
 	xid := vpU32("xid")
 	call := &RPCCall{Header: RPCMsgHeader{Xid: xid, MsgType: RPC_CALL, RPCVersion: 2, Program: NFS_PROGRAM, Version: NFS_V3, Procedure: proc},
